@@ -1,18 +1,29 @@
 package props
 
 import (
+	"encoding/base64"
 	"encoding/json"
 	"fmt"
 	"strings"
 	"testing"
 
+	transfertypes "github.com/cosmos/ibc-go/v8/modules/apps/transfer/types"
 	"pgregory.net/rapid"
 
 	"verif/harness/kit"
+	"verif/harness/light"
 	"verif/harness/world"
 )
 
 // C14 — no input makes the receive path panic; malformed payloads are refused.
+
+// caseFuzzPacket is the case format written by light.FuzzPacket.
+type caseFuzzPacket struct {
+	DataB64 string `json:"data_b64"`
+	Port    string `json:"port"`
+	Channel string `json:"channel"`
+	Aspect  int    `json:"aspect"`
+}
 
 // caseC14 is one packet through the whole PROD stack on a branch of the root state.
 type caseC14 struct {
@@ -44,8 +55,18 @@ func checkC14(w *world.World, c caseC14, rec *kit.Recorder) error {
 		stage = "success"
 	}
 	rec.Label("outcome", stage)
-	if c.Transfer.RawData == nil && c.Transfer.RawMemo != nil && orbiterAddressed(c.Transfer.ReceiverString()) {
-		verdict, why := kit.WellFormedMemo(*c.Transfer.RawMemo)
+	rawMemo := c.Transfer.RawMemo
+	toOrbiter := c.Transfer.RawData == nil && orbiterAddressed(c.Transfer.ReceiverString())
+	if c.Transfer.RawData != nil {
+		// raw packet data: receiver and memo are what the ICS-20 application's own codec reads
+		var ref transfertypes.FungibleTokenPacketData
+		if err := transfertypes.ModuleCdc.UnmarshalJSON(c.Transfer.RawData, &ref); err == nil && orbiterAddressed(ref.Receiver) {
+			toOrbiter, rawMemo = true, &ref.Memo
+			rec.Label("raw", "ICS-20 data addressed to the orbiter account")
+		}
+	}
+	if rawMemo != nil && toOrbiter {
+		verdict, why := kit.WellFormedMemo(*rawMemo)
 		switch verdict {
 		case kit.Malformed:
 			rec.Label("memo", "malformed")
@@ -343,7 +364,7 @@ func TestC14RawPacket(t *testing.T) {
 		tr := kit.Transfer{Channel: ch, Denom: denom, Amount: "1000", Route: kit.Route{Kind: "internal", To: kit.PlainUser(rt, "to")}}
 		memo := validMemo(rt, w, denom)
 		tr.RawMemo = &memo
-		class := pick(rt, "class", []string{"denom", "denom", "amount", "amount", "ids", "ids", "bytes", "json", "receiver", "memo-bytes"})
+		class := pick(rt, "class", []string{"denom", "denom", "amount", "amount", "ids", "ids", "bytes", "json", "spelling", "spelling", "receiver", "memo-bytes"})
 		reached := true
 		switch class {
 		case "denom":
@@ -369,6 +390,19 @@ func TestC14RawPacket(t *testing.T) {
 		case "bytes":
 			tr.RawData = rapid.SliceOfN(rapid.Byte(), 0, 200).Draw(rt, "bytes")
 			reached = false
+		case "spelling":
+			// JSON spelling variants of the packet data (repeated members, null, name case,
+			// unknown members, trailing bytes, escapes) around a valid or a malformed memo
+			f := kit.PacketFields{Denom: world.ReturnDenom(ch, denom), Amount: "1000", Sender: world.ForeignSender, Receiver: world.OrbiterAddr.String(), Memo: memo}
+			alt := kit.PlainUser(rt, "spelling/alt")
+			if chance(rt, "spelling/foreign-first", 30) {
+				f.Receiver, alt = alt, f.Receiver
+			}
+			if chance(rt, "spelling/badmemo", 40) {
+				f.Memo = pick(rt, "spelling/memo", []string{`{"orbiter":{}}`, `{"orbiter":null}`, `{"orbiter":{"pre_actions":[null]}}`, "{}", "x", `{"orbiter":{"forwarding":{"protocol_id":9}}}`})
+			}
+			text, _ := kit.SpellPacketData(rt, "spelling", f, alt)
+			tr.RawData = []byte(text)
 		case "json":
 			base := string(world.FTData{Denom: world.ReturnDenom(ch, denom), Amount: "1000", Sender: world.ForeignSender, Receiver: world.OrbiterAddr.String(), Memo: memo}.Bytes())
 			variant := pick(rt, "json/variant", []string{"truncate", "extend", "array", "null", "number", "string", "dupkey", "unknown", "memo-object", "nested"})
@@ -436,6 +470,19 @@ func init() {
 	}
 	kit.RegisterReplay("TestC14Attributes", replay)
 	kit.RegisterReplay("TestC14RawPacket", replay)
+	// a crasher saved by the native fuzz target (harness/light) replays through the same oracle
+	kit.RegisterReplay("FuzzPacket", func(raw json.RawMessage) error {
+		c, err := decode[caseFuzzPacket](raw)
+		if err != nil {
+			return fmt.Errorf("harness: %w", err)
+		}
+		data, err := base64.StdEncoding.DecodeString(c.DataB64)
+		if err != nil {
+			return fmt.Errorf("harness: %w", err)
+		}
+		_, err = light.CheckPacket(data, c.Port, c.Channel, light.Aspect(c.Aspect))
+		return err
+	})
 }
 
 // ---------------------------------------------------------------------------------------------
